@@ -37,9 +37,11 @@ ASSUMPTIONS = [
 ]
 
 NAMES = ["NAME", "STATUS", "COUNT", "KIND", "WHEN", "FLAG"]
-CONSTS = ["X", "ACTIVE", "FINAL", "5", '"5"', "3.5", "true", "false", '"a b"', "x-y", "PASS", '"true"', '"a|b"']  # (CONST[null] with REQ is unsatisfiable)
+CONSTS = ["X", "ACTIVE", "FINAL", "5", '"5"', "3.5", "true", "false", '"a b"', "x-y", "PASS", '"true"', '"a|b"', "false-positive", "null.reject", "vs.code",
+          '"007"', '"01"', "true_ish", "nullable"]  # (CONST[null] with REQ is unsatisfiable)
 ENUMS = [["A", "B"], ["DRAFT", "FINAL"], ["DRAFT", "ACTIVE", "DEPRECATED"], ["PASS", "PASS_WITH_NOTES", "FAIL"], ["1", "10", "16"], ["1", "2", "4", "8"],
-         ["true", "false"], ["null", "none"], ["a b", "c"], ["x-y", "a.b"], ["a|b", "c"], ["ACTIVE", "ACTIVATING"]]
+         ["true", "false"], ["null", "none"], ["a b", "c"], ["x-y", "a.b"], ["a|b", "c"], ["ACTIVE", "ACTIVATING"],
+         ['"01"', '"02"', '"12"'], ['"0755"', '"0644"'], ["false-positive", "true-negative"], ["null.reject", "vs.code", "ok"], ["1.0", "2.50"]]
 DECIDERS = ([f"CONST[{c}]" for c in CONSTS] + ["ENUM[" + ",".join(e) + "]" for e in ENUMS]
             + ["TYPE[BOOLEAN]", "TYPE[NUMBER]", "DATE", "ISO8601"] * 3)
 CAL = ["2024-01-15", "2024-02-29", "2023-02-29", "2024-13-01", "2024-00-10", "2024-04-31", "0000-01-01", "9999-12-31", "1900-02-29", "2000-02-29"]
